@@ -37,7 +37,7 @@ RUNS = [1, 2, 3, 4, 5, 99]
 
 def budget(tier):
     if tier == 'quick':
-        return {'shards': 16, 'examples': 150, 'wall': 240}
+        return {'shards': 16, 'examples': 400, 'wall': 240}
     return {'shards': 16, 'examples': 20000, 'wall': 2400}
 
 
